@@ -46,7 +46,7 @@ def leaf_cases():
 
 def cases(rng, tier):
     out = leaf_cases()
-    out += structcases.cases(rng, tier, nbase={"quick": 120, "search": 300, "thorough": 800}[tier], allow_f64=True)
+    out += structcases.cases(rng, tier, nbase={"quick": 120, "search": 300, "thorough": 800}[tier], allow_f64=True, allow_bool=True)
     return out
 
 
